@@ -9,7 +9,7 @@ CONSTANT RoleMenu <- RM0
 CONSTANT DocMenu <- DMg
 CONSTANT Lims <- L0
 CONSTANT MaxSteps = 7
-CONSTANT Thin = 6
+CONSTANT Thin = 1
 CONSTANT PageGap = FALSE
 SPECIFICATION Spec
 VIEW view
